@@ -168,6 +168,27 @@ CHECKS = {
              "validity of whole converted documents at the strictest level, "
              "equivalence after there-and-back, P<->O conversion through "
              "captured paths (C17 territory). " + TRUSTED),
+    "C07": dict(
+        technique="exception-discipline analysis over the resolved call "
+                  "graph: raise-class resolution, text taint with a "
+                  "guard-fact walk of every function on the ingestion surface "
+                  "(static analysis)",
+        engine="EXC",
+        design_ref="DESIGN.md section 4, C07",
+        text="Partial. Decides, for every function reachable from the text "
+             "and string-taking public API: each explicit raise constructs a "
+             "gfapy.Error subclass; each index into a text-derived value, "
+             "dict lookup with a text-derived key, int()/float()/json.loads()"
+             "/unhexlify() of text and dereference of a possibly-None finder "
+             "or match result is guarded by a dominating test, a wide-enough "
+             "try, a non-empty producer or its callers; no call of a method "
+             "no class defines; re-wrap sites construct error classes with a "
+             "signature they all accept; bin/gfapy-validate wraps both "
+             "from_file and validate and exits non-zero on gfapy.Error.",
+        note="Undecided: exceptions from values of an unexpected type, text "
+             "reaching a primitive through a field of a stored line (the "
+             "taint does not follow object fields), RecursionError on deep "
+             "structures, termination."),
     "C09": dict(
         technique="who-may-call / who-writes checks on the call graph plus "
                   "decision tables of the finders, the rename path and the "
